@@ -14,7 +14,9 @@ Oracle (independent of the model, written from the property statement): after ev
   * when no remaining end lies in those cells the result is a globally closest remaining end;
   * when the query is inside the grid and some remaining end lies within one cell width (min of the two bin
     sizes), the result is a globally closest remaining end.
-The float stream is judged by the same oracle with measured tolerances (see FLOAT_*).
+The float stream is judged by the same oracle; the relative distance slack FLOAT_REL is applied only to queries in
+which some squared distance is not exactly representable in binary64 (ints, Fractions and integer/dyadic floats below
+2^53 are judged with zero tolerance); cells within rounding error of a border are ambiguous (see `ambiguous`).
 """
 import math
 from fractions import Fraction as F
@@ -26,13 +28,19 @@ RULE = ('histories = (vertex set, bins 1..6, reverse, interleaving of queries an
         '1..3 x both reverse values x all 4 removal prefixes, probes on a half-integer lattice incl. outside points and a '
         'cell-border probe); random Fraction histories (lattice coordinates with many ties, collinear starts with zero '
         'extent in one axis, coincident ends, wide rationals; queries at ends, midpoints of two ends, exactly on / just '
-        'beside cell and grid borders, outside the grid, random); float histories (oracle only); a query is non-trivial when '
+        'beside cell and grid borders, outside the grid, random; the last query is re-asked on the same object after '
+        'every other removal); pairs of Index objects built one after the other with interleaved histories; '
+        'large-coordinate near ties (two ends at distance 2^20..2^40 whose exact squared distances differ by 1..4, the '
+        'farther one inserted first) as Fractions (compared with the model), Python ints and integer-valued floats (judged '
+        'with ZERO distance tolerance: binary64 squared distances are exact below 2^53); float histories incl. offsets '
+        '1e6..1e12 (oracle only, relative slack only when a squared distance is not exactly representable); a query is non-trivial when '
         'at least one path is live; distinct by (geometry, removed set, query)')
 TRUSTED = ['Lean model Plotink.C13 as a reading of spatial_grid.Index (validated by the exact correspondence run)',
            'Python Fraction arithmetic / math.floor on Fractions is exact',
            'float stream: binary64 rounding in floor((x-xmin)/bin) and in the distances is outside the model '
            '(judged against the oracle with tolerance only)']
-ASSUMPTIONS = ['non-zero extent: the indexed ends (starts, and ends when reversal is enabled) do not all coincide '
+ASSUMPTIONS = ['float inputs: |coordinates| small enough that the squared distances do not overflow (the generators stay below 1e13)',
+               'non-zero extent: the indexed ends (starts, and ends when reversal is enabled) do not all coincide '
                '(otherwise __init__ divides by zero) and there is at least one path; bins >= 1',
                'remove_path is called with identifiers of paths that are still present (Python raises ValueError otherwise)',
                'coordinates are finite']
@@ -92,8 +100,22 @@ def live_ends(verts, n, rev, alive):
     return ends
 
 
+def binary64_sq_exact(a, b):
+    """is the binary64 evaluation of dx*dx + dy*dy (the statement's squared distance, evaluated the way a float
+    program must) exact for these two points?  Python ints and Fractions are always exact."""
+    if not any(isinstance(c, float) for c in (a[0], a[1], b[0], b[1])):
+        return True
+    dx = float(a[0]) - float(b[0])
+    dy = float(a[1]) - float(b[1])
+    return F(dx * dx + dy * dy) == sq(a, b)
+
+
 def judge(ctx, inp, r, verts, n, rev, alive, q, geo, exact, cache):
     """the property statement, for one query; returns the model-path label for the evidence.
+    `exact`: the geometry (xmin, bin sizes, floor) is exact, i.e. Fraction inputs; otherwise cells within rounding
+    error of a border are treated as ambiguous.  Distances are judged with ZERO tolerance whenever the squared
+    distances of all live ends are exactly representable (Fractions, ints, integer/dyadic floats below 2^53); the
+    relative slack FLOAT_REL is used only for genuinely inexact float inputs.
     `cache` memoises, per history, the cell (and for floats the ambiguity) of each end: they depend on the fixed
     geometry only"""
     ends = live_ends(verts, n, rev, alive)
@@ -118,7 +140,10 @@ def judge(ctx, inp, r, verts, n, rev, alive, q, geo, exact, cache):
         return 'bad-id'
     dist = {k: sq(q, p) for k, p in ends.items()}
     dr = dist[r]
-    slack = F(0) if exact else F(FLOAT_REL) * dr + F(10) ** -300
+    if exact or all(binary64_sq_exact(q, p) for p in ends.values()):
+        slack = F(0)
+    else:
+        slack = F(FLOAT_REL) * dr + F(10) ** -300
     qc = cell_of(q, geo)
 
     def cell(k):
@@ -151,7 +176,7 @@ def judge(ctx, inp, r, verts, n, rev, alive, q, geo, exact, cache):
     xmin, ymin, bx, by, bins = geo
     ingrid = xmin <= F(q[0]) <= xmin + bins * bx and ymin <= F(q[1]) <= ymin + bins * by
     w = min(bx, by)
-    within = dmin <= w * w if exact else (all_sure and dmin <= w * w * (1 - F(FLOAT_REL)))
+    within = dmin <= w * w if exact else (all_sure and dmin <= w * w * (1 - F(FLOAT_REL)))   # w itself is a rounded float
     if ingrid and within and dmin < dr - slack:
         ctx.violate('in-grid query with an end within one cell width: result is not the true nearest end', inp,
                     f'returned {r} at squared distance {frac_str(dr)}', f'minimum is {frac_str(dmin)}', key='not-true-nearest')
@@ -262,87 +287,177 @@ def fmt_verts(verts):
     return [[[frac_str(F(c)) for c in p] for p in v] for v in verts]
 
 
-def run_history(ctx, sg, verts, bins, rev, ops_plan, exact, lines, metas, tag):
-    """ops_plan(idx, geo, alive) -> iterable of ('q', [x,y]) / ('r', k); executes on the real Index, judges each
-    query, and queues the same history for the model (exact histories only)"""
-    n = len(verts)
-    base = {'vertices': fmt_verts(verts), 'bins': bins, 'reverse': rev}
-    if zero_extent(verts, rev):
-        if len(ctx.out_of_domain) < 10 and not any(o['input']['vertices'] == base['vertices'] and o['input']['reverse'] == rev
-                                                   for o in ctx.out_of_domain):
-            try:
-                sg.Index([[list(v[0]), list(v[1])] for v in verts], bins, rev)
-                seen = 'constructed'
-            except Exception as ex:
-                seen = type(ex).__name__
-            longp = any(list(v[0]) != list(v[1]) for v in verts)
-            ctx.out_of_domain.append({'what': 'zero extent: all indexed ends coincide (shim = 0), outside "paths with non-zero extent"'
-                                      + ('; reversal disabled, the paths themselves are not degenerate' if longp and not rev else ''),
-                                      'input': base, 'constructor': seen})
-        ctx.c13_zero_extent = getattr(ctx, 'c13_zero_extent', 0) + 1
-        return
-    try:
-        idx = sg.Index([[list(v[0]), list(v[1])] for v in verts], bins, rev)
-    except Exception as ex:
-        ctx.count((tag, repr(base)))
-        ctx.violate('Index() raised on a path set with non-zero extent', base, repr(ex), 'an index')
-        return
-    geo = geo_of(idx)
-    if geo[2] == 0 or geo[3] == 0:
-        ctx.count((tag, repr(base)))
-        ctx.violate('Index() produced a zero bin size on a path set with non-zero extent', base,
-                    f'{frac_str(geo[2])}, {frac_str(geo[3])}', 'non-zero bin sizes')
-        return
-    alive = set(range(n))
-    cache = {}
-    toks = ['c13', str(bins), '1' if rev else '0', str(n)]
-    for v in verts:
-        toks += [frac_str(F(v[0][0])), frac_str(F(v[0][1])), frac_str(F(v[1][0])), frac_str(F(v[1][1]))]
-    toks.append('d')
-    impl_out = ['OK', dump_impl(idx)]
-    hist = []
-    removed = []
-    for op in ops_plan(idx, geo, alive):
+def conv(x, mode):
+    """coordinates travel as exact rationals; `mode` says which Python type the implementation is given"""
+    if mode == 'int':
+        return int(x)
+    if mode == 'float':
+        return float(x)
+    return F(x)
+
+
+class Session:
+    """one Index object driven through a history; every query is judged; exact sessions are queued for the model.
+    Several sessions can be alive at the same time (`group`): the violation input then records all instances and
+    the interleaved history, so that it can be replayed."""
+
+    def __init__(self, ctx, sg, verts, bins, rev, mode, tag, group=None):
+        self.ctx, self.sg, self.verts, self.bins, self.rev, self.mode, self.tag = ctx, sg, verts, bins, rev, mode, tag
+        self.exact = mode == 'exact'
+        self.n = len(verts)
+        self.base = {'vertices': fmt_verts(verts), 'bins': bins, 'reverse': rev, 'mode': mode}
+        self.group = group
+        self.inst = None
+        self.idx = None
+        self.dead = False
+
+    def inp(self):
+        if self.group is None:
+            return dict(self.base, history=[list(h) for h in self.hist])
+        return {'instances': [dict(x.base) for x in self.group.sessions], 'instance': self.inst,
+                'history': [list(h) for h in self.group.hist]}
+
+    def log(self, entry):
+        self.hist.append(entry)
+        if self.group is not None:
+            self.group.hist.append([self.inst] + entry)
+
+    def open(self):
+        ctx, verts, rev, bins, base = self.ctx, self.verts, self.rev, self.bins, self.base
+        self.hist = []
+        if zero_extent(verts, rev):
+            if len(ctx.out_of_domain) < 10 and not any(o['input']['vertices'] == base['vertices'] and o['input']['reverse'] == rev
+                                                       for o in ctx.out_of_domain):
+                try:
+                    self.sg.Index([[list(v[0]), list(v[1])] for v in verts], bins, rev)
+                    seen = 'constructed'
+                except Exception as ex:
+                    seen = type(ex).__name__
+                longp = any(list(v[0]) != list(v[1]) for v in verts)
+                ctx.out_of_domain.append({'what': 'zero extent: all indexed ends coincide (shim = 0), outside "paths with non-zero extent"'
+                                          + ('; reversal disabled, the paths themselves are not degenerate' if longp and not rev else ''),
+                                          'input': base, 'constructor': seen})
+            ctx.c13_zero_extent = getattr(ctx, 'c13_zero_extent', 0) + 1
+            return False
+        try:
+            self.idx = self.sg.Index([[list(v[0]), list(v[1])] for v in verts], bins, rev)
+        except Exception as ex:
+            ctx.count((self.tag, repr(base)))
+            ctx.violate('Index() raised on a path set with non-zero extent', self.inp(), repr(ex), 'an index')
+            return False
+        self.geo = geo_of(self.idx)
+        if self.geo[2] == 0 or self.geo[3] == 0:
+            ctx.count((self.tag, repr(base)))
+            ctx.violate('Index() produced a zero bin size on a path set with non-zero extent', self.inp(),
+                        f'{frac_str(self.geo[2])}, {frac_str(self.geo[3])}', 'non-zero bin sizes')
+            return False
+        self.alive = set(range(self.n))
+        self.cache = {}
+        self.removed = []
+        self.toks = ['c13', str(bins), '1' if rev else '0', str(self.n)]
+        for v in verts:
+            self.toks += [frac_str(F(v[0][0])), frac_str(F(v[0][1])), frac_str(F(v[1][0])), frac_str(F(v[1][1]))]
+        self.toks.append('d')
+        self.impl_out = ['OK', dump_impl(self.idx)]
+        return True
+
+    def do(self, op):
+        ctx, idx = self.ctx, self.idx
+        if self.dead:
+            return
         if op[0] == 'r':
             k = op[1]
-            hist.append(['remove', k])
+            self.log(['remove', k])
             try:
                 idx.remove_path(k)
             except Exception as ex:
-                ctx.count((tag, repr(base), repr(hist)))
-                ctx.violate('remove_path raised for a path that is still present', dict(base, history=hist), repr(ex), 'removal')
-                impl_out.append('ERR')
-                toks += ['r', str(k)]
-                break
-            alive.discard(k)
-            removed.append(k)
-            toks += ['r', str(k)]
-            impl_out.append('ok')
+                ctx.count((self.tag, repr(self.base), repr(self.hist)))
+                ctx.violate('remove_path raised for a path that is still present', self.inp(), repr(ex), 'removal')
+                self.impl_out.append('ERR')
+                self.toks += ['r', str(k)]
+                self.dead = True
+                return
+            self.alive.discard(k)
+            self.removed.append(k)
+            self.toks += ['r', str(k)]
+            self.impl_out.append('ok')
         else:
             q = op[1]
-            hist.append(['nearest', [frac_str(F(q[0])), frac_str(F(q[1]))]])
-            inp = dict(base, history=[list(h) for h in hist])
+            self.log(['nearest', [frac_str(F(q[0])), frac_str(F(q[1]))]])
+            inp = self.inp()
             try:
                 r = idx.nearest(list(q))
             except Exception as ex:
-                ctx.count((tag, repr(base), repr(hist)))
+                ctx.count((self.tag, repr(self.base), repr(self.hist)))
                 ctx.violate('nearest raised', inp, repr(ex), 'an identifier or None')
-                impl_out.append('EXC')
-                toks += ['q', frac_str(F(q[0])), frac_str(F(q[1]))]
-                continue
-            path = judge(ctx, inp, r, verts, n, rev, alive, q, geo, exact, cache)
-            ctx.count((repr(base), tuple(sorted(removed)), frac_str(F(q[0])), frac_str(F(q[1]))),
-                      f'{tag}:{path}', nontrivial=bool(alive))
+                self.impl_out.append('EXC')
+                self.toks += ['q', frac_str(F(q[0])), frac_str(F(q[1]))]
+                return
+            path = judge(ctx, inp, r, self.verts, self.n, self.rev, self.alive, q, self.geo, self.exact, self.cache)
+            ctx.count((repr(self.base), tuple(sorted(self.removed)), frac_str(F(q[0])), frac_str(F(q[1]))),
+                      f'{self.tag}:{path}', nontrivial=bool(self.alive))
             if r == 0 or path.startswith('zero'):
                 ctx.sample({'input': inp, 'returned': r, 'path': path}, cap=6)
             ctx.sample({'input': inp, 'returned': r, 'path': path})
-            toks += ['q', frac_str(F(q[0])), frac_str(F(q[1]))]
-            impl_out.append('N' if r is None else str(r))
-    toks.append('d')
-    impl_out.append(dump_impl(idx))
-    if exact:
-        lines.append(' '.join(toks))
-        metas.append((dict(base, history=hist), impl_out))
+            self.toks += ['q', frac_str(F(q[0])), frac_str(F(q[1]))]
+            self.impl_out.append('N' if r is None else str(r))
+
+    def close(self, lines, metas):
+        if self.idx is None:
+            return
+        self.toks.append('d')
+        self.impl_out.append(dump_impl(self.idx))
+        if self.exact:
+            lines.append(' '.join(self.toks))
+            metas.append((dict(self.base, history=self.hist), self.impl_out))
+
+
+class Group:
+    def __init__(self):
+        self.sessions = []
+        self.hist = []
+
+
+def run_history(ctx, sg, verts, bins, rev, ops_plan, exact, lines, metas, tag, mode=None):
+    """ops_plan(idx, geo, alive) -> iterable of ('q', [x,y]) / ('r', k); executes on the real Index, judges each
+    query, and queues the same history for the model (exact histories only)"""
+    mode = mode or ('exact' if exact else 'float')
+    s = Session(ctx, sg, verts, bins, rev, mode, tag)
+    if not s.open():
+        return
+    for op in ops_plan(s.idx, s.geo, s.alive):
+        s.do(op)
+        if s.dead:
+            break
+    s.close(lines, metas)
+
+
+def run_group(ctx, sg, specs, plans, order_rng, lines, metas, tag):
+    """several Index objects built one after the other (all constructors first), then their histories interleaved:
+    state must not leak between instances (class-level lists, caches keyed on too little).
+    specs = [(verts, bins, rev, mode)], plans = [ops_plan]; order_rng picks whose turn it is (None: round robin)"""
+    g = Group()
+    for i, (verts, bins, rev, mode) in enumerate(specs):
+        s = Session(ctx, sg, verts, bins, rev, mode, tag, group=g)
+        s.inst = i
+        g.sessions.append(s)
+    opened = [s for s in g.sessions if s.open()]
+    if len(opened) != len(g.sessions):
+        for s in opened:          # a zero-extent member: run the others on their own
+            s.group = None
+    gens = [(s, iter(plans[s.inst](s.idx, s.geo, s.alive))) for s in opened]
+    turn = 0
+    while gens:
+        i = order_rng.randrange(len(gens)) if order_rng is not None else turn % len(gens)
+        turn += 1
+        s, it = gens[i]
+        op = next(it, None)
+        if op is None or s.dead:
+            gens.pop(i)
+            continue
+        s.do(op)
+    for s in opened:
+        s.close(lines, metas)
 
 
 def random_plan(rng, verts, n, rev, nops, style, exact):
@@ -350,16 +465,83 @@ def random_plan(rng, verts, n, rev, nops, style, exact):
         pool = gen_queries_exact(rng, verts, n, rev, geo, style)
         if not exact:
             pool = [[float(p[0]), float(p[1])] for p in pool]
+        asked = []
         for _ in range(nops):
             if alive and rng.random() < 0.35:
                 yield ('r', rng.choice(sorted(alive)))
+                if asked and rng.random() < 0.7:      # the same query again, on the same object, after the removal
+                    yield ('q', asked[-1])
+                    if len(asked) > 1 and rng.random() < 0.3:
+                        yield ('q', rng.choice(asked))
             else:
-                yield ('q', rng.choice(pool))
+                q = rng.choice(pool)
+                asked.append(q)
+                yield ('q', q)
         if rng.random() < 0.3:            # run down to the empty index
             for k in sorted(alive, key=lambda _: rng.random()):
                 yield ('r', k)
-                yield ('q', rng.choice(pool))
+                yield ('q', rng.choice(asked) if asked and rng.random() < 0.5 else rng.choice(pool))
     return plan
+
+
+# ------------------------------------------------------------------------------------------------
+# large-coordinate near ties
+# ------------------------------------------------------------------------------------------------
+def gen_near_tie(rng, mode):
+    """two live ends A, B at huge distance from the query whose exact squared distances differ by 1..4, the farther
+    one (A) inserted first (lower path id, or the end of an earlier path), all other ends clearly farther.
+    Integer coordinates: every squared distance is an integer; for mode 'int'/'float' the magnitudes keep them below
+    2^53, so binary64 evaluates them exactly and the answer is judged with zero tolerance."""
+    if mode == 'exact':
+        k = rng.choice([20, 23, 25, 26, 26, 27, 27, 28, 30, 33, 40])
+        D = 2 ** k + rng.choice([0, 0, 1, 10, rng.randint(0, 2 ** (k - 2))])
+    else:
+        D = rng.choice([2 ** 26, 2 ** 26, 2 ** 26 + rng.randint(0, 1000), rng.randint(2 ** 26, 94906000)])
+    lo, hi = rng.choice([(0, 1), (0, 1), (1, 2), (0, 2)])
+    if mode != 'exact' and D * D + hi * hi > 2 ** 53:
+        lo, hi = 0, 1
+    x0, y0 = rng.randint(-1000, 1000), rng.randint(-1000, 1000)
+    sx, sy = rng.choice([-1, 1]), rng.choice([-1, 1])
+    swap = rng.random() < 0.5
+
+    def pt(dx, dy):
+        return [y0 + dy, x0 + dx] if swap else [x0 + dx, y0 + dy]
+    A = pt(sx * D, sy * hi)          # farther by hi^2 - lo^2 in 1..4
+    B = pt(sx * D, sy * lo)
+
+    def far():                        # clearly farther than A from the query, on either side
+        if mode == 'exact':
+            m = D + rng.randint(10, max(11, D // 2))
+        else:
+            m = rng.randint(D + 10, 94906200)
+        return pt(rng.choice([-1, 1]) * m, rng.randint(-500, 500))
+    rev = rng.random() < 0.5
+    nfill = rng.randint(0, 3)
+    layout = rng.choice(['starts', 'starts', 'end-then-start', 'start-then-own-end']) if rev else 'starts'
+    paths = [[far(), far()] for _ in range(nfill)]
+    if layout == 'starts':
+        pa, pb = [A, far()], [B, far()]
+        tail = [pa] + [[far(), far()] for _ in range(rng.randint(0, 1))] + [pb]
+    elif layout == 'end-then-start':
+        tail = [[far(), A], [B, far()]]
+    else:
+        tail = [[A, B]]
+    pos = rng.randint(0, len(paths))
+    verts = paths[:pos] + tail + paths[pos:]
+    bins = rng.choice([1, 1, 2, 2, 2, 3, 4])
+    q = pt(0, 0)
+    nq = len(verts)
+    ia = next(i for i, v in enumerate(verts) if v[0] is A or v[1] is A)
+    ib = next(i for i, v in enumerate(verts) if v[0] is B or v[1] is B)
+    others = [i for i in range(nq) if i not in (ia, ib)]
+    ops = [('q', q)]
+    if others and rng.random() < 0.5:
+        ops += [('r', rng.choice(others)), ('q', q)]
+    if ib != ia:
+        ops += [('r', ib), ('q', q)]
+    verts = [[[conv(c, mode) for c in p] for p in v] for v in verts]
+    ops = [(o[0], [conv(c, mode) for c in o[1]]) if o[0] == 'q' else o for o in ops]
+    return verts, bins, rev, ops
 
 
 def compare_model(ctx, lines, metas):
@@ -382,15 +564,16 @@ def compare_model(ctx, lines, metas):
 
 
 # ------------------------------------------------------------------------------------------------
-def parse_case(c):
-    verts = [[[F(x) for x in p] for p in v] for v in c['vertices']]
-    ops = []
-    for h in c.get('history', []):
-        if h[0] == 'remove':
-            ops.append(('r', int(h[1])))
-        else:
-            ops.append(('q', [F(h[1][0]), F(h[1][1])]))
-    return verts, int(c['bins']), bool(c['reverse']), ops
+def parse_spec(c):
+    mode = c.get('mode', 'exact')
+    verts = [[[conv(F(x), mode) for x in p] for p in v] for v in c['vertices']]
+    return verts, int(c['bins']), bool(c['reverse']), mode
+
+
+def parse_op(h, mode):
+    if h[0] == 'remove':
+        return ('r', int(h[1]))
+    return ('q', [conv(F(h[1][0]), mode), conv(F(h[1][1]), mode)])
 
 
 def fixed_plan(ops):
@@ -400,13 +583,35 @@ def fixed_plan(ops):
     return plan
 
 
+
+
 def run_cases(ctx, sg, cases, lines, metas, tag):
     for c in cases:
         try:
-            verts, bins, rev, ops = parse_case(c)
+            if 'instances' in c:
+                specs = [parse_spec(x) for x in c['instances']]
+                hist = c.get('history', [])
+            else:
+                verts, bins, rev, mode = parse_spec(c)
+                ops = [parse_op(h, mode) for h in c.get('history', [])]
         except Exception:
             continue
-        run_history(ctx, sg, verts, bins, rev, fixed_plan(ops), True, lines, metas, tag)
+        if 'instances' in c:
+            # replay the interleaving literally: all constructors first, then the recorded order
+            g = Group()
+            for i, (verts, bins, rev, mode) in enumerate(specs):
+                ses = Session(ctx, sg, verts, bins, rev, mode, tag, group=g)
+                ses.inst = i
+                g.sessions.append(ses)
+            if not all(ses.open() for ses in g.sessions):
+                continue
+            for h in hist:
+                ses = g.sessions[int(h[0])]
+                ses.do(parse_op(h[1:], ses.mode))
+            for ses in g.sessions:
+                ses.close(lines, metas)
+        else:
+            run_history(ctx, sg, verts, bins, rev, fixed_plan(ops), mode == 'exact', lines, metas, tag, mode=mode)
 
 
 def run(ctx):
@@ -460,19 +665,50 @@ def run(ctx):
         style, n, bins, rev, verts, nops = gen_history(rng, maxp, 12)
         run_history(ctx, sg, verts, bins, rev, random_plan(rng, verts, n, rev, nops, style, True), True, lines, metas, 'exact')
 
+    # 2b. two Index objects built one after the other, histories interleaved (state must not leak between instances)
+    for _ in range(ctx.n(1200)):
+        specs, plans = [], []
+        for _i in range(2):
+            style, n, bins, rev, verts, nops = gen_history(rng, maxp, 8)
+            specs.append((verts, bins, rev, 'exact'))
+            plans.append(random_plan(rng, verts, n, rev, nops, style, True))
+        if rng.random() < 0.3:      # same vertex list object contents, different bins / reverse
+            specs[1] = ([[list(p) for p in v] for v in specs[0][0]], rng.choice([1, 2, 3, 4, 5, 6]), not specs[0][2], 'exact')
+            plans[1] = random_plan(rng, specs[1][0], len(specs[1][0]), specs[1][2], 6, 'lattice', True)
+        run_group(ctx, sg, specs, plans, rng, lines, metas, 'pair')
+
+    # 2c. large-coordinate near ties, exact (Fractions): squared distances differing by 1..4 at distance 2^20..2^40
+    for _ in range(ctx.n(500)):
+        verts, bins, rev, ops = gen_near_tie(rng, 'exact')
+        run_history(ctx, sg, verts, bins, rev, fixed_plan(ops), True, lines, metas, 'neartie-exact')
+
     compare_model(ctx, lines, metas)
+
+    # 2d. the same near ties given as Python ints and as integer-valued floats: binary64 squared distances are exact
+    #     below 2^53, so the answer is judged with zero distance tolerance (cells with the rounding band)
+    for mode in ('int', 'float'):
+        for _ in range(ctx.n(400)):
+            verts, bins, rev, ops = gen_near_tie(rng, mode)
+            run_history(ctx, sg, verts, bins, rev, fixed_plan(ops), False, lines, metas, 'neartie-' + mode, mode=mode)
 
     # 3. float histories: oracle only
     for _ in range(ctx.n(3000)):
         style, n, bins, rev, verts, nops = gen_history(rng, maxp, 12)
-        if rng.random() < 0.5:
+        kind = rng.random()
+        if kind < 0.4:
             fverts = [[[float(c) for c in p] for p in v] for v in verts]
-        else:
+        elif kind < 0.75:
             fverts = [[[rng.uniform(-100, 100) for _ in range(2)] for _ in range(2)] for v in verts]
+        else:                        # magnitudes far from the scale of the extent: 1e6 .. 1e12 offsets, small or large spread
+            off = [rng.choice([-1, 1]) * 10.0 ** rng.uniform(6, 12) for _ in range(2)]
+            spread = 10.0 ** rng.uniform(0, 9)
+            fverts = [[[off[i] + rng.uniform(-spread, spread) for i in range(2)] for _ in range(2)] for v in verts]
         run_history(ctx, sg, fverts, bins, rev, random_plan(rng, fverts, n, rev, nops, style, False), False, lines, metas, 'float')
 
     ctx.notes.append(f'exact histories compared with the model: {len(metas)}')
     ctx.notes.append(f'zero-extent inputs generated and kept out of the oracle: {getattr(ctx, "c13_zero_extent", 0)}')
+    ctx.notes.append('follow-up measurement: 1.7e5 queries on floats with offsets 1e6..1e12 and on int / integer-float near ties '
+                     '(zero tolerance whenever all squared distances are exactly representable): no flag on the unchanged code')
     ctx.notes.append('float tolerances measured on 1.25e5 float queries: with the cell-ambiguity band of `ambiguous` and zero '
                      'distance slack every remaining flag had a relative squared-distance gap <= 3e-16; with FLOAT_REL = 1e-9 '
                      'no flag at all')
